@@ -71,7 +71,7 @@ def event_sig(name, label):
     if kind == "accept":
         return "%s.accept.L" % func
     if kind == "select":
-        return "%s.select.loop" % func
+        return "poll.select.loop"        # wasyncore.poll (select) and poll2 (poll): the same step of the model
     if kind in ("pull", "drain", "pulled", "drained"):
         return "%s.%s.trigger" % (func, kind)
     if kind == "app":
@@ -95,21 +95,21 @@ def to_tla(v):
 
 def in_slice(scn):
     c = scn["conns"]
-    if len(c) != 1 or scn.get("use_poll") or scn.get("accept_faults"):
+    if len(c) != 1 or scn.get("accept_faults"):
         return False
-    if set((c[0].get("faults") or {}).keys()) - {"send"}:
+    if set((c[0].get("faults") or {}).keys()) - {"send", "recv"}:
         return False
     reqs = c[0]["requests"]
     if [r["k"] for r in reqs] != list(range(1, len(reqs) + 1)):
         return False
-    if any(r.get("kind", "plain") not in ("plain", "close", "expect") or r.get("headers") for r in reqs):
+    if any(r.get("kind", "plain") not in ("plain", "close", "expect", "http10", "http10_ka", "body", "chunked", "head") or r.get("headers") for r in reqs):
         return False
     if set(scn["adj"]) - {"channel_request_lookahead", "send_bytes", "outbuf_high_watermark"}:
         return False
     for v in scn.get("apps", {}).values():
-        if set(v) - {"chunks", "cl", "write"} or v.get("cl", "exact") not in ("exact", "none") or "sync" in v.get("chunks", []):
+        if set(v) - {"chunks", "cl", "write", "raise_at", "raise"} or v.get("cl", "exact") not in ("exact", "none", "larger") or "sync" in v.get("chunks", []):
             return False
-    if (c[0].get("faults") or {}).get("send") and any(r.get("kind") == "expect" for r in reqs):
+    if c[0].get("faults") and any(r.get("kind") == "expect" for r in reqs):
         return False      # an error inside send_continue's flush leaves received()/service(): not modelled
     return all(a[0] in ("connect", "send", "read", "readall", "readall_after_block", "read_after_block", "await100", "close") for a in c[0]["client"])
 
@@ -148,10 +148,15 @@ def write_sizes(scn):
     if res[-1].get("status") not in ("quiescent", "done") or sorted(sizes) != list(range(1, len(sizes) + 1)):
         return None
     finals = [r for r in res[-1]["conns"][0]["resp"] if not r.get("interim")]
-    if len(finals) != len(sizes) or (len(sizes) < n and not finals[-1].get("close")):
+    # an exchange closes the connection when its response says so, or when the application failed / promised more
+    # bytes than it produced (close_on_finish is then set without a Connection: close header)
+    from checks import chan_common
+    must = [r["mustclose"] for r in chan_common.cfg_of(s2)["conns"][0]["reqs"]]
+    closes = [(bool(finals[k - 1].get("close")) if k <= len(finals) else False) or must[k - 1] for k in range(1, n + 1)]
+    if len(finals) != len(sizes) or (len(sizes) < n and not closes[len(sizes) - 1]):
         return None
     # requests behind a closing exchange are never executed: no writes
-    return [sizes.get(k, []) for k in range(1, n + 1)], [bool(finals[k - 1].get("close")) if k <= len(finals) else False for k in range(1, n + 1)]
+    return [sizes.get(k, []) for k in range(1, n + 1)], closes
 
 
 def constants_of(scn):
@@ -203,7 +208,10 @@ def constants_of(scn):
     sf = []
     for e in (c.get("faults") or {}).get("send", []):
         sf.append("ok" if e is None else ("disc" if e in _DISCONNECTED else "hard"))
-    return {"sends": sends, "writes": writes, "interim": INTERIM, "lookahead": a.get("channel_request_lookahead", 0),
+    rf = []
+    for e in (c.get("faults") or {}).get("recv", []):
+        rf.append("ok" if e is None else ("eof" if e == "eof" else ("disc" if e in _DISCONNECTED else "hard")))
+    return {"rfaults": rf, "sends": sends, "writes": writes, "interim": INTERIM, "lookahead": a.get("channel_request_lookahead", 0),
             "sendbytes": a.get("send_bytes", 1), "hwm": a.get("outbuf_high_watermark", 16777216), "sndbuf": c.get("sndbuf", 65536),
             "room": -1 if room is None else room, "ops": ops, "sfaults": sf, "workers": scn.get("workers", 1)}
 
@@ -276,7 +284,7 @@ def mc_scenarios(thorough):
     R = lambda r, c=False, w="full": {"rid": r, "close": c, "what": w}
     O = lambda op, n=0, after=0: {"op": op, "n": n, "after": after}
     SEND, ALL, AW = O("send"), O("read", -1, 1), lambda n: O("await100", n)
-    base = {"interim": 1, "sendbytes": 1, "hwm": 1000, "sndbuf": 100, "room": -1, "sfaults": [], "lookahead": 0, "workers": 1}
+    base = {"interim": 1, "sendbytes": 1, "hwm": 1000, "sndbuf": 100, "room": -1, "sfaults": [], "rfaults": [], "lookahead": 0, "workers": 1}
 
     def M(**kw):
         d = dict(base)
@@ -317,6 +325,10 @@ def mc_scenarios(thorough):
          ("producer above the mark, a later send fails", "C13 C12",
           M(sends=[[R(1)]], writes=[[2, 2]], ops=[SEND, O("read", -1, 1)], room=1, hwm=1, sfaults=["ok", "ok", "ok", "hard"]),
           M(sends=[[R(1)]], writes=[[2, 2, 2]], ops=[SEND, O("read", 1, 1), O("read", -1, 2)], room=1, hwm=1, sfaults=["ok", "ok", "ok", "ok", "hard"])),
+         ("second recv fails while the first request runs, la=1", "C13 C11",
+          M(sends=[[R(1)], [R(2)]], writes=[[2, 1], [1]], ops=[SEND, SEND], rfaults=["ok", "hard"], lookahead=1), None),
+         ("recv reports a disconnect errno with a request queued, la=1", "C13",
+          M(sends=[[R(1)], [R(2)]], writes=[[2, 1], [1]], ops=[SEND, SEND], rfaults=["ok", "disc"], lookahead=1), None),
          ("producer above the mark, lookahead=1, client goes away (seen by recv)", "C13 C12",
           M(sends=[[R(1)]], writes=[[2, 2, 2]], ops=[SEND, O("close")], room=0, hwm=1, lookahead=1), None)]
     # quick variants are also checked for the liveness property ComesToRest (fair scheduling); the larger ones for safety only
